@@ -109,19 +109,12 @@ Fixpoint walk (fuel : nat) (A B : list insn) (todo seen : list (nat * nat)) : op
 Definition cfg_equiv (A B : list insn) : option (nat * nat) :=
   walk (4 * (length A + length B) + 16) A B [(0, 0)] [].
 
-Fixpoint strs_eqb (a b : list string) : bool :=
-  match a, b with
-  | [], [] => true
-  | x :: a, y :: b => String.eqb x y && strs_eqb a b
-  | _, _ => false
-  end.
-
 (* real program: toplevel code, functions by id (with the number of locals and the names the real resolver chose) *)
 Record realfun := { rf_id : nat; rf_code : funcode; rf_locals : list string }.
 
 (* does the model code generator cover the program?  (no UNSUPPORTED instruction anywhere, every MAKEFUNC target compiled) *)
 Definition in_compile_scope (p : program) : bool :=
-  let cp := compile_prog (fold_prog p) in
+  let cp := compile_prog (number_prog (fold_prog p)) in
   let ok_code (c : list insn) :=
     forallb (fun i => match i with
                       | UNSUPPORTED _ => false
@@ -131,10 +124,10 @@ Definition in_compile_scope (p : program) : bool :=
 
 (* (a): for every function the model compiles, same slot layout and equivalent code *)
 Definition codegen_check (p0 : program) (top : realfun) (funs : list realfun) (globals : list string) : string :=
-  let p := fold_prog p0 in
+  let p := number_prog (fold_prog p0) in
   let cp := compile_prog p in
   if negb (strs_eqb globals (global_names p)) then "globals-layout" else
-  if negb (strs_eqb (rf_locals top) (file_names p)) then "toplevel-locals-layout" else
+  if negb (strs_eqb (rf_locals top) (map unmangle (layout_top p))) then "toplevel-locals-layout" else
   match cfg_equiv (fc_code (rf_code top)) (fc_code (cp_top cp)) with
   | Some (a, b) => ("code:<toplevel>@" ++ zstr (Z.of_nat a) ++ "/" ++ zstr (Z.of_nat b))%string
   | None =>
@@ -148,7 +141,7 @@ Definition codegen_check (p0 : program) (top : realfun) (funs : list realfun) (g
                  match find_def p fid with
                  | None => "missing-function"
                  | Some (fd, _) =>
-                     if negb (strs_eqb (rf_locals rf) (locals_of fd)) then ("locals-layout:" ++ fc_name fc)%string else
+                     if negb (strs_eqb (rf_locals rf) (map unmangle (layout fd))) then ("locals-layout:" ++ fc_name fc)%string else
                      match cfg_equiv (fc_code (rf_code rf)) (fc_code fc) with
                      | Some (a, b) => ("code:" ++ fc_name fc ++ "@" ++ zstr (Z.of_nat a) ++ "/" ++ zstr (Z.of_nat b))%string
                      | None => each r
